@@ -1518,7 +1518,7 @@ def check_C14(ctx):
 # ---------------------------------------------------------------------------
 def check_C15(ctx):
     r = ctx.rng
-    cases = []; groups = []; falses = []
+    cases = []; groups = []; falses = []; olds = []
     for k in range(ctx.scale(150, 4000)):
         w = gen.world(r, envelope=r.random() < 0.5, fancy=r.choice([0, 0.3]))
         if r.random() < 0.5: w["log"].append(("heading", "2021/02/02"))      # a day without entries
@@ -1550,6 +1550,8 @@ def check_C15(ctx):
         fb = r.sample(["collapse", "collapse_last"], r.randint(1, 2))
         falses.append((len(cases), len(cases) + 1)); cases.append(dict(files=f, cmd="bal", false_flags=fb, **NOCOLOR)); cases.append(dict(files=f, cmd="bal", **NOCOLOR))
         falses.append((len(cases), len(cases) + 1)); cases.append(dict(files=f, cmd="quantity", false_flags=["desc"], **NOCOLOR)); cases.append(dict(files=f, cmd="quantity", **NOCOLOR))
+        sel = r.choice([dict(single_element=els[0]), dict(single_element=els[0], group_food=True), dict(single_food=r.choice(["a", "e", "r"]))])
+        olds.append((len(cases), len(cases) + 1)); cases.append(dict(files=f, cmd="reg", old=True, **sel, **NOCOLOR)); cases.append(dict(files=f, cmd="reg", **sel, **NOCOLOR))
         groups.append(g)
         ctx.nontriv(f["food.yaml"] + f["log.yaml"])
         if k < 1: ctx.sample(dict(book=f["food.yaml"], log=f["log.yaml"]))
@@ -1617,6 +1619,11 @@ def check_C15(ctx):
                     if cols != want:
                         ctx.violation("C15:colour-by-sign-of-amount", "the amount %s of %r is printed %r with colour %r (positive red 31, negative green 32, zero none)" % (lex, nm, plain.strip()[:60], sorted(cols)),
                                       dict(kind="cli", case=cases[idx], impl=i)); break
+    for a, b2 in olds:
+        x, y = ires[a], ires[b2]
+        if (x["status"], x["stdout"]) != (y["status"], y["stdout"]):
+            ctx.violation("C15:old-reporter-changes-the-selection", "reg %s with --use-old-reg-reporter differs from the same selection without it: %r / %r" % (({k2: v for k2, v in cases[a].items() if k2 in ("single_element", "single_food", "group_food")},) + first_diff(x["stdout"], y["stdout"])),
+                          dict(kind="cli", case=cases[a], impl=x, other_case=cases[b2], other_impl=y))
     for a, b2 in falses:
         if (ires[a]["status"], ires[a]["stdout"]) != (ires[b2]["status"], ires[b2]["stdout"]):
             ctx.violation("C15:flag-given-as-false:" + cases[a]["cmd"], "%s with %s given as =false differs from the run without them: %r / %r" % ((cases[a]["cmd"], cases[a]["false_flags"]) + first_diff(ires[a]["stdout"], ires[b2]["stdout"])),
